@@ -145,7 +145,9 @@ def case_strategy(max_depth=6):
             st.builds(lambda f, e: {"kind": "flat_map", "fn": f, "err": e}, flat_fn, flat_err),
             gen.retry_policies().map(lambda p: {"kind": "retry", "policy": p}),
             st.builds(lambda iv: {"kind": "poll", "interval": iv, "per_sub": {}}, gen.DELAYS),
-            st.sampled_from([1, 2, 3, None]).map(lambda c: {"kind": "throttle", "count": c}),
+            # (blocking mode too: submit() then waits for room in the queue instead of queueing without bound)
+            st.tuples(st.sampled_from([1, 2, 3, None]), st.sampled_from([False, False, True])).map(
+                lambda cb: {"kind": "throttle", "count": cb[0], "block": bool(cb[1] and cb[0] is not None)}),
             st.just({"kind": "timeout", "t": 5000.0}),
             st.just({"kind": "cos"}),
         )
